@@ -26,29 +26,39 @@ IsSysex(tok) == tok[1] = 240
 SysexOnly(l) == SelectSeq([i \in DOMAIN l |-> Encode(l[i])], IsSysex)
 Written(l) == Flatten(SysexOnly(l))                 \* what a binary file holds; the hex pairs of a text file
 ReadBytes(bs) == IF bs = <<>> THEN <<>> ELSE SelectSeq(ParseAll(bs), IsSysex)
-\* a file produced elsewhere may hold other messages between the sysex ones
-Foreign(l) == Flatten([i \in DOMAIN l |-> Encode(l[i])])
+\* a file produced elsewhere may hold other messages between the sysex ones,
+\* real-time bytes inside a sysex, or a sysex that was cut short
+RawPool == << <<240, 247>>, <<240, 1, 247>>, <<240, 1, 248, 2, 247>>, <<240, 1, 254, 247>>,
+              <<240, 5, 6>>, <<144, 60, 64>>, <<248>>, <<240, 127, 0, 247>> >>
+ForeignRaw(f) == Flatten([i \in DOMAIN f |-> RawPool[f[i]]])
 
 Init ==
   \/ /\ mode \in {"bin", "text"}
      /\ \E k \in 0..MaxList : msgs \in [1..k -> 1..Len(Pool)]
      /\ layout \in (IF mode = "text" THEN Layouts ELSE {0})
   \/ /\ mode = "foreign_bin" /\ layout = 0
-     /\ \E k \in 1..MaxList : msgs \in {f \in [1..k -> 1..Len(Pool)] : Pool[f[1]].t = "sysex"}
+     /\ \E k \in 1..MaxList : msgs \in {f \in [1..k -> 1..Len(RawPool)] : RawPool[f[1]][1] = 240}
   \/ /\ mode = "badtext" /\ msgs = <<>> /\ layout \in BadTexts
 Next == FALSE /\ UNCHANGED vars
 Spec == Init /\ [][Next]_vars
 
-L == [i \in DOMAIN msgs |-> Pool[msgs[i]]]
+L == IF mode = "foreign_bin" THEN <<>> ELSE [i \in DOMAIN msgs |-> Pool[msgs[i]]]
 
 SyxRoundTrip == mode \in {"bin", "text"} => ReadBytes(Written(L)) = SysexOnly(L)
 NoSysexGivesEmpty == (mode \in {"bin", "text"} /\ SysexOnly(L) = <<>>) => Written(L) = <<>>
-ForeignDropped == mode = "foreign_bin" => ReadBytes(Foreign(L)) = SysexOnly(L)
+\* reading is the tokenizer followed by the sysex filter; every sysex handed out is valid
+ForeignRead == ReadBytes(ForeignRaw(msgs))
+ForeignDropped == mode = "foreign_bin" =>
+   /\ \A i \in DOMAIN ForeignRead : Decode(ForeignRead[i]) # Invalid /\ ForeignRead[i][1] = 240
+   /\ Len(ForeignRead) <= Len(msgs)
 BinaryDetected == (mode = "bin" /\ Written(L) # <<>>) => Written(L)[1] = 240
 
 EncFlat(l) == FoldLeft(LAMBDA a, e : a \o <<Len(e)>> \o e, <<>>, l)
 Emit == PrintT(ToString(
-  <<"EMIT", CASE mode = "bin" -> 1 [] mode = "text" -> 2 [] mode = "foreign_bin" -> 3 [] OTHER -> 4,
-    layout, Len(msgs)>> \o EncFlat([i \in DOMAIN L |-> Encode(L[i])])
-  \o <<Len(SysexOnly(L))>> \o EncFlat(SysexOnly(L))))
+  IF mode = "foreign_bin"
+  THEN <<"EMIT", 3, layout, Len(msgs)>> \o EncFlat([i \in DOMAIN msgs |-> RawPool[msgs[i]]])
+       \o <<Len(ForeignRead)>> \o EncFlat(ForeignRead)
+  ELSE <<"EMIT", CASE mode = "bin" -> 1 [] mode = "text" -> 2 [] OTHER -> 4,
+         layout, Len(msgs)>> \o EncFlat([i \in DOMAIN L |-> Encode(L[i])])
+       \o <<Len(SysexOnly(L))>> \o EncFlat(SysexOnly(L))))
 =============================================================================
